@@ -4341,6 +4341,13 @@ fn parse_text_qualifiers<'a>(
     }
 }
 
+/// Parses a numeric literal, returns a syntax error if it is not a valid number (e.g. out of range)
+fn parse_number<T: std::str::FromStr>(value: &str) -> Result<T, StamError> {
+    value
+        .parse()
+        .map_err(|_| StamError::QuerySyntaxError(format!("Invalid numeric value: '{}'", value), ""))
+}
+
 fn parse_dataoperator<'a>(
     opstr: &'a str,
     value: &'a str,
@@ -4356,19 +4363,19 @@ fn parse_dataoperator<'a>(
             _ => unreachable!("boolean should be true or false"),
         },
         ("=", ArgType::Integer) => {
-            DataOperator::EqualsInt(value.parse().expect("str->int conversion should work"))
+            DataOperator::EqualsInt(parse_number(value)?)
         }
         ("=", ArgType::Float) => {
-            DataOperator::EqualsFloat(value.parse().expect("str->float conversion should work"))
+            DataOperator::EqualsFloat(parse_number(value)?)
         }
         ("!=", ArgType::String) => {
             DataOperator::Not(Box::new(DataOperator::Equals(Cow::Borrowed(value))))
         }
         ("!=", ArgType::Integer) => DataOperator::Not(Box::new(DataOperator::EqualsInt(
-            value.parse().expect("str->int conversion should work"),
+            parse_number(value)?,
         ))),
         ("!=", ArgType::Float) => DataOperator::Not(Box::new(DataOperator::EqualsFloat(
-            value.parse().expect("str->float conversion should work"),
+            parse_number(value)?,
         ))),
         ("!=", ArgType::Null) => DataOperator::Not(Box::new(DataOperator::Null)),
         ("!=", ArgType::Any) => DataOperator::Not(Box::new(DataOperator::Any)), //this is a tautology, always fails
@@ -4400,28 +4407,28 @@ fn parse_dataoperator<'a>(
             DataOperator::Not(Box::new(DataOperator::Or(values)))
         }
         (">", ArgType::Integer) => {
-            DataOperator::GreaterThan(value.parse().expect("str->int conversion should work"))
+            DataOperator::GreaterThan(parse_number(value)?)
         }
         (">=", ArgType::Integer) => DataOperator::GreaterThanOrEqual(
-            value.parse().expect("str->int conversion should work"),
+            parse_number(value)?,
         ),
         ("<", ArgType::Integer) => {
-            DataOperator::LessThan(value.parse().expect("str->int conversion should work"))
+            DataOperator::LessThan(parse_number(value)?)
         }
         ("<=", ArgType::Integer) => {
-            DataOperator::LessThanOrEqual(value.parse().expect("str->int conversion should work"))
+            DataOperator::LessThanOrEqual(parse_number(value)?)
         }
         (">", ArgType::Float) => DataOperator::GreaterThanFloat(
-            value.parse().expect("str->float conversion should work"),
+            parse_number(value)?,
         ),
         (">=", ArgType::Float) => DataOperator::GreaterThanOrEqualFloat(
-            value.parse().expect("str->float conversion should work"),
+            parse_number(value)?,
         ),
         ("<", ArgType::Float) => {
-            DataOperator::LessThanFloat(value.parse().expect("str->float conversion should work"))
+            DataOperator::LessThanFloat(parse_number(value)?)
         }
         ("<=", ArgType::Float) => DataOperator::LessThanOrEqualFloat(
-            value.parse().expect("str->float conversion should work"),
+            parse_number(value)?,
         ),
         ("=", ArgType::List) => {
             let values: Vec<_> = value
@@ -4446,19 +4453,29 @@ fn parse_dataoperator<'a>(
             DataOperator::Or(values)
         }
         ("=", ArgType::Datetime) => DataOperator::ExactDatetime(
-            DateTime::parse_from_rfc3339(value).expect("datetime RFC3339 parsing should work"),
+            DateTime::parse_from_rfc3339(value).map_err(|_| {
+                StamError::QuerySyntaxError(format!("Invalid datetime: '{}'", value), "")
+            })?,
         ),
         (">", ArgType::Datetime) => DataOperator::AfterDatetime(
-            DateTime::parse_from_rfc3339(value).expect("datetime RFC3339 parsing should work"),
+            DateTime::parse_from_rfc3339(value).map_err(|_| {
+                StamError::QuerySyntaxError(format!("Invalid datetime: '{}'", value), "")
+            })?,
         ),
         (">=", ArgType::Datetime) => DataOperator::AtOrAfterDatetime(
-            DateTime::parse_from_rfc3339(value).expect("datetime RFC3339 parsing should work"),
+            DateTime::parse_from_rfc3339(value).map_err(|_| {
+                StamError::QuerySyntaxError(format!("Invalid datetime: '{}'", value), "")
+            })?,
         ),
         ("<", ArgType::Datetime) => DataOperator::BeforeDatetime(
-            DateTime::parse_from_rfc3339(value).expect("datetime RFC3339 parsing should work"),
+            DateTime::parse_from_rfc3339(value).map_err(|_| {
+                StamError::QuerySyntaxError(format!("Invalid datetime: '{}'", value), "")
+            })?,
         ),
         ("<=", ArgType::Datetime) => DataOperator::AtOrBeforeDatetime(
-            DateTime::parse_from_rfc3339(value).expect("datetime RFC3339 parsing should work"),
+            DateTime::parse_from_rfc3339(value).map_err(|_| {
+                StamError::QuerySyntaxError(format!("Invalid datetime: '{}'", value), "")
+            })?,
         ),
         _ => {
             return Err(StamError::QuerySyntaxError(
